@@ -11,7 +11,10 @@ package codec
 // stores, copy into a window, bytes.Buffer Write*/binary.Write, φ-joins of
 // alternatives, up to two levels of in-module helper, counted loops over a
 // local table (unroll.go), buffers made at their final computed size
-// (symbuf.go) — and returns Pieces that carry those values. Nothing is executed.
+// (symbuf.go), strings.Builder, local writer objects with append-only methods
+// and []byte variables extended by closures (objbuf.go), struct values /
+// single-assignment cells / running-offset cells (cells.go) — and returns
+// Pieces that carry those values. Nothing is executed.
 //
 // Soundness notes. A fixed buffer's content is trusted only if every write to
 // it dominates every read of it (a write under a condition that executes at
@@ -128,11 +131,20 @@ type Streamer struct {
 	frame    *Frame
 	// unrolled loops (unroll.go): up is set on the streamer of one iteration and
 	// points to the streamer of the activation that contains the loop
-	up    *Streamer
+	up *Streamer
 	// caller is set on the streamer of an inlined callee
 	caller *Streamer
 	loops  map[*ssa.BasicBlock]*Loop
-	iters map[*Frame]*Streamer
+	iters  map[*Frame]*Streamer
+	acc    *accCtx
+	// directLoads: for a direct statement obj.buf = append(obj.buf, …) of the
+	// owner, the loads of the accumulator it was read through
+	directLoads map[*ssa.Store][]*ssa.UnOp
+	// accStore recognises the stores into the accumulator field of the writer
+	// object being replayed (objbuf.go)
+	accStore func(*ssa.Store) bool
+	// isFail overrides what counts as a failing exit of a loop body (unroll.go)
+	isFail func(*ssa.BasicBlock, map[*ssa.BasicBlock]bool) bool
 }
 
 func NewStreamer(fn *ssa.Function, inModule func(*ssa.Function) bool) *Streamer {
@@ -200,7 +212,7 @@ func (s *Streamer) CalleeReturns(call *ssa.Call, fr *Frame) (out [][]*Piece, ret
 	if f == nil || f.Blocks == nil || s.InModule == nil || !s.InModule(f) || s.depth >= 2 {
 		return nil, nil, false
 	}
-	cf := &Frame{Call: call, Callee: f, Parent: fr}
+	cf := ChildFrame(call, f, fr)
 	sub := NewStreamer(f, s.InModule)
 	sub.depth, sub.frame, sub.caller = s.depth+1, cf, s
 	vals, rets := sub.successReturns()
@@ -276,6 +288,21 @@ func (s *Streamer) stream1(v ssa.Value) []*Piece {
 			if k, isK := x.X.(*ssa.Const); isK {
 				return s.Stream(k)
 			}
+			// []byte(sb.String()) of a local strings.Builder / bytes.Buffer
+			if call, isCall := x.X.(*ssa.Call); isCall {
+				if f := call.Common().StaticCallee(); f != nil && (f.String() == "(*strings.Builder).String" || f.String() == "(*bytes.Buffer).String") {
+					ps := s.buffer(call.Common().Args[0], call)
+					opaque := false
+					for _, p := range ps {
+						if p.Kind == "unknown" {
+							opaque = true
+						}
+					}
+					if !opaque {
+						return ps
+					}
+				}
+			}
 			return []*Piece{{Kind: "bytes", Width: -1, Src: v, At: x}}
 		}
 		return s.Stream(x.X)
@@ -310,6 +337,30 @@ func (s *Streamer) stream1(v ssa.Value) []*Piece {
 		return []*Piece{{Kind: "bytes", Width: w, Src: v, At: x}}
 	case *ssa.UnOp:
 		if x.Op == token.MUL {
+			// the accumulator of a writer object (objbuf.go)
+			if s.acc != nil && s.acc.isField(x.X) {
+				s.acc.loads = append(s.acc.loads, x)
+				return s.acc.cur
+			}
+			if cell, ok := cellOf(x); ok && cell.Parent() == s.Fn {
+				ps := s.objField(cell, sliceCell, x)
+				for _, p := range ps {
+					if p.Kind == "unknown" {
+						return []*Piece{{Kind: "bytes", Width: -1, Src: v, At: x, Why: p.Why}}
+					}
+				}
+				return ps
+			}
+			if obj, field, ok := objOf(x); ok && obj.Parent() == s.Fn {
+				ps := s.objField(obj, field, x)
+				for _, p := range ps {
+					if p.Kind == "unknown" {
+						// not a writer object that can be replayed: an opaque run, as before
+						return []*Piece{{Kind: "bytes", Width: -1, Src: v, At: x, Why: p.Why}}
+					}
+				}
+				return ps
+			}
 			if el, ef, ok := elemLoad(x, s.frame); ok {
 				// element of a local constant table ([][]byte{a, b, …}[k]): the value stored there
 				return s.streamIn(el, ef)
@@ -440,6 +491,47 @@ func GlobalConstBytes(g *ssa.Global) ([]byte, bool) {
 	if str, ok := constStr(val); ok {
 		return []byte(str), true
 	}
+	// a byte literal []byte{'N', 'T', …}: a fresh array, one constant store per
+	// element (elements never stored stay zero), sliced as a whole
+	if sl, ok := val.(*ssa.Slice); ok && sl.Low == nil && sl.High == nil && sl.Max == nil {
+		al, isAl := sl.X.(*ssa.Alloc)
+		if !isAl || al.Referrers() == nil {
+			return nil, false
+		}
+		arr, isArr := derefT(al.Type()).Underlying().(*types.Array)
+		if !isArr || !isByte(arr.Elem()) || arr.Len() > 1<<12 {
+			return nil, false
+		}
+		out := make([]byte, arr.Len())
+		seen := map[int64]bool{}
+		for _, r := range *al.Referrers() {
+			switch x := r.(type) {
+			case *ssa.DebugRef:
+			case *ssa.Slice:
+				if x != sl {
+					return nil, false
+				}
+			case *ssa.IndexAddr:
+				idx, isK := constI(x.Index)
+				if !isK || idx < 0 || idx >= arr.Len() || seen[idx] || x.Referrers() == nil || len(*x.Referrers()) != 1 {
+					return nil, false
+				}
+				st, isSt := (*x.Referrers())[0].(*ssa.Store)
+				if !isSt || st.Addr != ssa.Value(x) {
+					return nil, false
+				}
+				k, isC := constI(st.Val)
+				if !isC || k < 0 || k > 255 {
+					return nil, false
+				}
+				seen[idx] = true
+				out[idx] = byte(k)
+			default:
+				return nil, false
+			}
+		}
+		return out, true
+	}
 	return nil, false
 }
 
@@ -450,7 +542,12 @@ func GlobalConstBytes(g *ssa.Global) ([]byte, bool) {
 // "base ++ tail": the result is only read afterwards, and no other append that
 // can execute in the same run extends the same base.
 func (s *Streamer) chainOK(call *ssa.Call, base ssa.Value) string {
-	if why := readOnly(call, 0); why != "" {
+	// the store of the extended slice back into the accumulator field of a writer
+	// object is what objbuf.go replays
+	if why := readOnlyX(call, 0, func(in ssa.Instruction) bool {
+		st, ok := in.(*ssa.Store)
+		return ok && s.accStore != nil && s.accStore(st)
+	}); why != "" {
 		return fmt.Sprintf("the result of %s %s", call.Name(), why)
 	}
 	if base.Referrers() == nil {
@@ -485,13 +582,17 @@ func (s *Streamer) chainOK(call *ssa.Call, base ssa.Value) string {
 var readOnlyCallees = map[string]bool{
 	"bytes.Equal": true, "bytes.Compare": true, "bytes.HasPrefix": true,
 	"(*bytes.Buffer).Write": true, "encoding/hex.EncodeToString": true,
+	"(*strings.Builder).Write": true, "(*strings.Builder).WriteString": true,
 	"(*bytes.Buffer).WriteString": true, "encoding/hex.Dump": true,
 }
 
 // readOnly: every use of slice value v only reads it (no element store, not
 // retained in memory, not handed to a callee that may write it). Returns ""
 // or the offending use.
-func readOnly(v ssa.Value, d int) string {
+func readOnly(v ssa.Value, d int) string { return readOnlyX(v, d, nil) }
+
+// readOnlyX is readOnly with uses the caller accounts for itself (skip).
+func readOnlyX(v ssa.Value, d int, skip func(ssa.Instruction) bool) string {
 	if v.Referrers() == nil {
 		return ""
 	}
@@ -499,10 +600,13 @@ func readOnly(v ssa.Value, d int) string {
 		return "is used through too many re-slices"
 	}
 	for _, r := range *v.Referrers() {
+		if skip != nil && skip(r) {
+			continue
+		}
 		switch x := r.(type) {
 		case *ssa.DebugRef, *ssa.Return, *ssa.Phi:
 		case *ssa.Slice:
-			if why := readOnly(x, d+1); why != "" {
+			if why := readOnlyX(x, d+1, skip); why != "" {
 				return why
 			}
 		case *ssa.IndexAddr:
@@ -1059,7 +1163,7 @@ func (s *Streamer) producer(call *ssa.Call, idx int, v ssa.Value, at ssa.Instruc
 	cc := call.Common()
 	f := cc.StaticCallee()
 	if idx == 0 && f != nil && f.Blocks != nil && s.InModule != nil && s.InModule(f) && s.depth < 2 {
-		fr := &Frame{Call: call, Callee: f, Parent: s.frame}
+		fr := ChildFrame(call, f, s.frame)
 		sub := NewStreamer(f, s.InModule)
 		sub.depth = s.depth + 1
 		sub.frame = fr
@@ -1135,6 +1239,25 @@ func Resolve(v ssa.Value, fr *Frame) (ssa.Value, *Frame) {
 		case *ssa.UnOp, *ssa.Index:
 			if el, ef, ok := elemLoad(v, fr); ok {
 				v, fr = el, ef
+				continue
+			}
+		}
+		switch v.(type) {
+		case *ssa.UnOp, *ssa.Field:
+			// a field of a struct value written once: the value stored there (cells.go)
+			if e, ef, ok := fieldLoad(v, fr); ok {
+				v, fr = e, ef
+				continue
+			}
+			// a captured parameter / local that is assigned once
+			if e, ef, ok := cellLoadValue(v, fr); ok {
+				v, fr = e, ef
+				continue
+			}
+		}
+		if fv, ok := v.(*ssa.FreeVar); ok {
+			if b, bf, ok := freeVarBinding(fv, fr); ok {
+				v, fr = b, bf
 				continue
 			}
 		}
@@ -1265,11 +1388,11 @@ func (s *Streamer) buffer(buf ssa.Value, at ssa.Instruction) []*Piece {
 				return unknown(at, "the bytes.Buffer is passed to %s", calleeStr(cc))
 			}
 			switch f.String() {
-			case "(*bytes.Buffer).Write", "(*bytes.Buffer).WriteString":
+			case "(*bytes.Buffer).Write", "(*bytes.Buffer).WriteString", "(*strings.Builder).Write", "(*strings.Builder).WriteString":
 				add(x, s.Stream(cc.Args[1]))
-			case "(*bytes.Buffer).WriteByte":
+			case "(*bytes.Buffer).WriteByte", "(*strings.Builder).WriteByte":
 				add(x, []*Piece{bytePiece(cc.Args[1], x)})
-			case "(*bytes.Buffer).Bytes", "(*bytes.Buffer).Len", "(*bytes.Buffer).String", "(*bytes.Buffer).Grow":
+			case "(*bytes.Buffer).Bytes", "(*bytes.Buffer).Len", "(*bytes.Buffer).String", "(*bytes.Buffer).Grow", "(*strings.Builder).String", "(*strings.Builder).Len", "(*strings.Builder).Grow":
 			default:
 				return unknown(at, "bytes.Buffer method %s is not modelled", f.Name())
 			}
@@ -1277,11 +1400,18 @@ func (s *Streamer) buffer(buf ssa.Value, at ssa.Instruction) []*Piece {
 			return unknown(at, "the bytes.Buffer is used by %T", r)
 		}
 	}
+	return s.accumulate(ops, al.Block(), at, "bytes.Buffer")
+}
+
+// accumulate: the concatenation of the deltas ops (per block) appended to an
+// accumulator that is empty at the start of block `start`, when `at` executes.
+// Joins of paths become alternatives; an accumulator live across a loop is not
+// read.
+func (s *Streamer) accumulate(ops map[*ssa.BasicBlock][]bufOp, start *ssa.BasicBlock, at ssa.Instruction, what string) []*Piece {
 	for b := range ops {
 		sort.Slice(ops[b], func(i, j int) bool { return instrBefore(ops[b][i].in, ops[b][j].in) })
 	}
 	s.bufMemo = map[*ssa.BasicBlock][]*Piece{}
-	start := al.Block()
 	var atEnd func(b *ssa.BasicBlock, upto ssa.Instruction, d int) []*Piece
 	atEnd = func(b *ssa.BasicBlock, upto ssa.Instruction, d int) []*Piece {
 		if upto == nil {
@@ -1295,7 +1425,7 @@ func (s *Streamer) buffer(buf ssa.Value, at ssa.Instruction) []*Piece {
 			pre = unknown(at, "control flow too deep")
 		case b == start:
 		case isLoopHeader(b):
-			pre = unknown(at, "the bytes.Buffer is live across a loop")
+			pre = unknown(at, "the %s is live across a loop", what)
 		default:
 			var alts [][]*Piece
 			var preds []*ssa.BasicBlock
@@ -1307,7 +1437,7 @@ func (s *Streamer) buffer(buf ssa.Value, at ssa.Instruction) []*Piece {
 				preds = append(preds, p)
 			}
 			if len(alts) == 0 {
-				pre = unknown(at, "block not dominated by the buffer allocation")
+				pre = unknown(at, "block not dominated by the allocation of the %s", what)
 			} else if len(alts) == 1 {
 				pre = alts[0]
 			} else {
